@@ -10,6 +10,11 @@ use crate::Args;
 mod tc;
 use tc::{parse_snap, result_of, run_tab_with, GSnap};
 
+#[path = "c20_sys.rs"]
+mod sys;
+#[path = "c10_sys.rs"]
+mod sys2;
+
 const RULE: &str = "a case is one op history on a fresh real session table: 1-4 sessions (secure with installed local ids and plain, distinct peer ports, some expired later), then a state-aware random mix of received messages with every combination of exchange id (live id, live id+-1, allocator position, random) x initiator flag x opcode class (request / standalone ack / status report) x ack (matching, stale, none) x reliability, owner look-ups, accepts (prompt, late, never), Exchange::initiate_for_session, exchange drops at any point (with pending ack / pending retransmission / clean), sends and retransmissions, session removal while exchanges are open, virtual time steps around the 1000 ms accept deadline, accept-timeout / orphan sweeps addressed to live, dropped, unknown exchanges and vanished sessions, and the dropped-exchange closer. Every op line carries the implementation's result and the table snapshot. Non-trivial = at least two distinct output lines; #stat lines give the outcome distribution; distinct = by op list";
 
 struct SInfo {
@@ -258,10 +263,54 @@ fn gen_datagram(r: &mut Rng) -> String {
     crate::proto::hex(&b)
 }
 
+
+const SYS2_RULE: &str = "sys2 cases (system level): a REAL device Matter whose exchanges are served by 0-3 harness application handlers plus the watchdog's own, and two real controller nodes, on the simulated network (0-20 ms latency) under virtual time, after a real PASE handshake; 2-7 client exchanges tagged k run concurrently on the PASE session and on fresh unsecured sessions from both controllers (pairs of unsecured exchanges from different peers carry the SAME exchange id and interleave their messages): n pings each answered by an echo; the handler that accepts tag k echoes, answers late, never answers, or is dropped by the executor n ms after it received message j; with fewer handlers than exchanges some are accepted late or never (accept time-out); client tasks are cancelled mid-send (their node then closes the session under the other exchanges), 'flood' opens more exchanges than a session has slots (the device closes the session while messages are in flight); a watchdog exchange on its own session is pinged every 100-400 ms throughout; then 60-130 s of virtual time, the REAL tables and the longest stay of one message in the RX slot are read and a fresh exchange is probed";
+
+fn gen_sys2(id: u64, r: &mut Rng) -> (String, Vec<String>) {
+    let h = r.range(0, 3);
+    let kind = format!("sys2 H={} lat={}", h, *r.pick(&[0u64, 2, 5, 5, 20]));
+    let mut ops: Vec<String> = vec![format!("w gap={}", *r.pick(&[100u64, 200, 300, 400]))];
+    let n_x = r.range(2, (h + 4).min(7));
+    let mut t = r.range(60, 200);
+    let mut k = 0u64;
+    // a pair of unsecured exchanges from different peers with the same exchange id, interleaved
+    let twin = id % 2 == 0;
+    let twin_xid = r.range(1, 65000);
+    let mut xs: Vec<String> = Vec::new();
+    for i in 0..n_x {
+        k += 1;
+        let beh = match r.below(10) {
+            0 | 1 => format!("stall:{}", *r.pick(&[50u64, 400, 1200, 3000])),
+            2 | 3 => format!("dropat:{}:{}", r.below(3), *r.pick(&[0u64, 1, 3, 7, 12, 30])),
+            4 => "mute".to_string(),
+            _ => "echo".to_string(),
+        };
+        ops.push(format!("b {} {}", k, beh));
+        let (sess, extra) = if twin && i < 2 {
+            ("u", format!(" c={} xid={}", i + 1, twin_xid))
+        } else if r.chance(3, 5) {
+            ("p", String::new())
+        } else {
+            ("u", format!(" c={}", r.range(1, 2)))
+        };
+        let cancel = if !(twin && i < 2) && r.chance(1, 7) { format!(" cancel={}", r.range(0, 60)) } else { String::new() };
+        let at = if twin && i == 1 { t + r.below(3) } else { t };
+        xs.push(format!("x {} s={} at={} n={} gap={}{}{}", k, sess, at, r.range(1, 6), *r.pick(&[0u64, 10, 50, 200]), cancel, extra));
+        t += *r.pick(&[0u64, 0, 5, 20, 100, 600]);
+    }
+    ops.extend(xs);
+    if r.chance(1, 6) {
+        ops.push(format!("flood at={} n={}", t + r.range(0, 500), r.range(5, 7)));
+    }
+    ops.push(format!("quiesce {}", *r.pick(&[70_000u64, 100_000, 130_000])));
+    ops.push("probe".into());
+    (kind, ops)
+}
+
 pub fn gen(a: &Args) -> String {
     let mut r = Rng::new(a.seed);
     let mut out = Out::default();
-    out.buf.push_str(&format!("#rule {}\n", RULE));
+    out.buf.push_str(&format!("#rule {} || {}\n", RULE, SYS2_RULE));
     let n_cases = if a.thorough { 60000 } else { 8000 };
     for id in 0..n_cases {
         let mut cr = r.fork();
@@ -282,6 +331,14 @@ pub fn gen(a: &Args) -> String {
         out.case(n_cases + id, "sys");
         run_sys(&mut out, &ops);
     }
+    // system level: real handlers, concurrent exchanges, cancellations
+    let n_sys2 = if a.thorough { 3000 } else { 300 };
+    for id in 0..n_sys2 {
+        let mut cr = r.fork();
+        let (kind, ops) = gen_sys2(id, &mut cr);
+        out.case(n_cases + n_sys + id, &kind);
+        sys2::run_sys2(&mut out, &kind, &ops);
+    }
     out.finish()
 }
 
@@ -289,7 +346,10 @@ pub fn replay(a: &Args) -> String {
     let text = std::fs::read_to_string(a.input.as_ref().expect("--in")).expect("read input");
     let mut out = Out::default();
     for c in parse_cases(&text) {
-        if c.kind.starts_with("sys") {
+        if c.kind.starts_with("sys2") {
+            out.case(c.id, &c.kind);
+            sys2::run_sys2(&mut out, &c.kind, &c.ops);
+        } else if c.kind.starts_with("sys") {
             out.case(c.id, &c.kind);
             run_sys(&mut out, &c.ops);
         } else {
